@@ -31,4 +31,22 @@ def CI.drain (step : Nat → Nat) : CI → Nat → List Nat
     | (c', some r) => r :: CI.drain step c' fuel
     | (_, none) => []
 
+/-- call `next_back()` until it answers `None` (at most `fuel` times) -/
+def CI.drainBack (back : Nat → Nat) : CI → Nat → List Nat
+  | _, 0 => []
+  | c, fuel + 1 =>
+    match c.nextBack back with
+    | (c', some r) => r :: CI.drainBack back c' fuel
+    | (_, none) => []
+
+/-- `HullIterator::new` (hull_iterator.rs): a `CircularIterator` from the outer face's adjacent edge,
+    an empty one when there is none; `convex_hull().rev()` drains it from the back with `prev` -/
+def St.hullCI (s : St) : CI :=
+  match s.fAdj.getD 0 none with
+  | none => CI.newEmpty 0
+  | some e0 => CI.new e0
+
+def St.hullIterBack (s : St) : List Nat := CI.drainBack s.prv s.hullCI s.nE
+def St.hullIterFront (s : St) : List Nat := CI.drain s.nxt s.hullCI s.nE
+
 end Spade
